@@ -1,5 +1,5 @@
 (* RunC10.v — executable checkers of the C10 wrapper correspondence.  Arrays are exact: every float is
-   passed as the integer of its IEEE bit pattern (+0.0 = 0), complex numbers as pairs, so the model
+   passed as an integer label of its IEEE bit pattern (injective per case, +0.0 = 0), complex numbers as pairs, so the model
    (pure data movement around the PyWavelets calls) runs on Z[i] and is compared exactly.
    The PyWavelets results recorded from the implementation's own calls are handed to the model as the
    data of W / Wr:  W z = wout when z is exactly the recorded argument, a poison value otherwise. *)
